@@ -122,9 +122,14 @@ impl Q {
     }
 }
 
-fn build_tx(qs: &[Q]) -> tir::Tx {
+fn build_tx(qs: &[Q], referenced: &[tx3_tir::model::core::UtxoRef]) -> tir::Tx {
     let mut t = empty_tx();
     t.fees = ada(0);
+    // reference inputs naming UTxOs of the store: some of them end up selected by an input block as well
+    // ("the script lives in the UTxO being spent"), which must not change what the body spends
+    if !referenced.is_empty() {
+        t.references.push(E::UtxoRefs(referenced.to_vec()));
+    }
     for q in qs {
         let p = input_param(&q.name, q.to_query());
         if q.collateral {
@@ -166,7 +171,17 @@ fn observe(store_us: &[U], qs: &[Q], with_body: bool) -> Value {
     let st = MemStore {
         utxos: store_us.iter().map(|u| u.to_utxo()).collect(),
     };
-    let tx = build_tx(qs);
+    let referenced: Vec<tx3_tir::model::core::UtxoRef> = if with_body && !st.utxos.is_empty() && qs.len() % 2 == 1 {
+        let us: Vec<&Utxo> = st.utxos.iter().collect();
+        let mut v = vec![us[0].r#ref.clone()];
+        if us.len() > 2 {
+            v.push(us[us.len() / 2].r#ref.clone());
+        }
+        v
+    } else {
+        vec![]
+    };
+    let tx = build_tx(qs, &referenced);
     let r = guarded(|| pollster::block_on(tx3_resolver::inputs::resolve(AnyTir::V1Beta0(tx), &st)));
     match r {
         Err(site) => json!({"panic": site}),
